@@ -196,6 +196,11 @@ def _same_collectives_on_both_sides(prog, fi, test: ast.AST, coll_funcs) -> bool
             elif neg is not None and tt == neg:
                 pol = not pl
         if pol is None:
+            # the decision as taken on this path, found by its syntax node (the store may have substituted its locals)
+            for t, pl, node in p.conds:
+                if node is test or getattr(node, "test", None) is test:
+                    pol = pl
+        if pol is None:
             continue
         ops = []
         for ev in p.calls():
